@@ -517,27 +517,30 @@ impl TypeRt<'_> {
                 }
                 Reduce => {
                     let [f] = get_args(args)?;
-                    match f.node.as_flipped_primitive() {
-                        Some((Join, _)) => {
-                            let mut x = self.pop()?;
-                            if x.shape.len() >= 2 {
-                                let b = x.shape.remove(1);
-                                let a = x.shape.remove(0);
-                                x.shape.insert(0, a * b)
-                            }
-                            self.stack.push(x);
-                        }
-                        Some((prim, _)) if prim.class() == PrimClass::DyadicPervasive => {
-                            let mut x = self.pop()?;
-                            x.shape.make_row();
-                            self.stack.push(x);
-                        }
-                        _ => return Err(TypeError::NotSupported),
-                    }
+                    self.reduce(f)?;
                 }
                 _ => return Err(TypeError::NotSupported),
             },
             Node::ImplMod(prim, args, _) => match prim {
+                // The fused form of reduce inside rows that many times
+                &ImplPrimitive::ReduceDepth(depth) => {
+                    let [f] = get_args(args)?;
+                    let mut x = self.pop()?;
+                    // Rows of a scalar are not known, see rows
+                    if x.shape.len() < depth {
+                        return Err(TypeError::NotSupported);
+                    }
+                    let counts: Vec<usize> = (0..depth).map(|_| x.shape.remove(0)).collect();
+                    x.int = None;
+                    self.stack.push(x);
+                    self.reduce(f)?;
+                    let mut x = self.pop()?;
+                    for count in counts.into_iter().rev() {
+                        x.shape.prepend(count);
+                    }
+                    x.int = None;
+                    self.stack.push(x);
+                }
                 &ImplPrimitive::DipN(n) => {
                     let [f] = get_args(args)?;
                     let dipped = self.stack.split_off(n);
@@ -585,6 +588,26 @@ impl TypeRt<'_> {
                 } else {
                     return Err(TypeError::NotSupported);
                 }
+            }
+            _ => return Err(TypeError::NotSupported),
+        }
+        Ok(())
+    }
+    fn reduce(&mut self, f: &SigNode) -> Result<(), TypeError> {
+        match f.node.as_flipped_primitive() {
+            Some((Primitive::Join, _)) => {
+                let mut x = self.pop()?;
+                if x.shape.len() >= 2 {
+                    let b = x.shape.remove(1);
+                    let a = x.shape.remove(0);
+                    x.shape.insert(0, a * b)
+                }
+                self.stack.push(x);
+            }
+            Some((prim, _)) if prim.class() == PrimClass::DyadicPervasive => {
+                let mut x = self.pop()?;
+                x.shape.make_row();
+                self.stack.push(x);
             }
             _ => return Err(TypeError::NotSupported),
         }
